@@ -22,15 +22,17 @@ var Classes = []string{"empty", "one", "small", "wide", "deep", "mid", "tall", "
 
 // GenOpts tunes Gen.
 type GenOpts struct {
-	Syn      bool     // add synonym documents
-	Vec      bool     // add vector fields
-	IDPrefix string   // make ids of different batches distinct (or equal, for update-like merges)
-	MaxTerms int      // restrict term alphabet (0 = class default)
-	NoBig    bool     // no 70 kB values
-	Names    []string // use exactly these field names, every document has every field (identical field lists across batches)
-	Terms    []string // use exactly this term alphabet
-	Docs     int      // override the number of documents (0 = class default)
-	NoDupIDs bool
+	Syn       bool     // add synonym documents
+	Vec       bool     // add vector fields
+	IDPrefix  string   // make ids of different batches distinct (or equal, for update-like merges)
+	MaxTerms  int      // restrict term alphabet (0 = class default)
+	NoBig     bool     // no 70 kB values
+	Names     []string // use exactly these field names, every document has every field (identical field lists across batches)
+	Terms     []string // use exactly this term alphabet
+	Docs      int      // override the number of documents (0 = class default)
+	NoDupIDs  bool
+	Always    string // if non-empty: this term occurs in every instance of the first field name
+	HasAlways bool
 }
 
 func pick(rng *rand.Rand, pool []string, n int) []string {
@@ -207,7 +209,17 @@ func Gen(rng *rand.Rand, class string, o GenOpts) *Batch {
 				}
 				pos := uint64(1)
 				off := uint64(0)
-				for _, t := range pick(rng, terms, nt) {
+				chosen := pick(rng, terms, nt)
+				if o.HasAlways && n == names[0] {
+					has := false
+					for _, t := range chosen {
+						has = has || t == o.Always
+					}
+					if !has {
+						chosen = append(chosen, o.Always)
+					}
+				}
+				for _, t := range chosen {
 					tok := Tok{Term: t, Freq: 1 + rng.Intn(3)}
 					if class == "tall" {
 						tok.Freq = 1 + rng.Intn(2)
@@ -378,3 +390,65 @@ func addVectors(rng *rand.Rand, b *Batch) {
 		}
 	}
 }
+
+// ForceCardinality rewrites the batch so that term occurs in field in exactly
+// k documents (chosen by rng).  Used for cardinalities next to multiples of
+// 1024, where the chunk-size rules of modes 1025/1026 switch.
+func ForceCardinality(b *Batch, rng *rand.Rand, field, term string, k int) {
+	n := len(b.Docs)
+	if k > n {
+		k = n
+	}
+	chosen := map[int]bool{}
+	for _, i := range rng.Perm(n)[:k] {
+		chosen[i] = true
+	}
+	for di := range b.Docs {
+		d := &b.Docs[di]
+		if len(d.Syn) > 0 {
+			continue
+		}
+		have := false
+		for fi := range d.Fields {
+			f := &d.Fields[fi]
+			if f.Name != field {
+				continue
+			}
+			keep := f.Toks[:0]
+			for _, t := range f.Toks {
+				if t.Term == term {
+					if chosen[di] && !have {
+						have = true
+						keep = append(keep, t)
+					}
+					continue
+				}
+				keep = append(keep, t)
+			}
+			f.Toks = keep
+		}
+		if chosen[di] && !have {
+			placed := false
+			for fi := range d.Fields {
+				f := &d.Fields[fi]
+				if f.Name == field {
+					f.Toks = append(f.Toks, Tok{Term: term, Freq: 1})
+					if f.Len == 0 {
+						f.Len = 1
+					}
+					placed = true
+					break
+				}
+			}
+			if !placed {
+				d.Fields = append(d.Fields, FieldInst{Name: field, Type: 't', Len: 1, Toks: []Tok{{Term: term, Freq: 1}}})
+			}
+		}
+		if len(d.Composite) > 0 {
+			d.Composite = []FieldInst{compose(d.Composite[0].Name, d.Fields)}
+		}
+	}
+}
+
+// EdgeCards are term cardinalities around the chunk-rule thresholds.
+var EdgeCards = []int{1023, 1024, 1025, 2047, 2048, 2049, 1, 1026}
